@@ -979,8 +979,73 @@ func c19Scripted(r *Run) {
 }
 
 // c19Transact: corrupted operation lists against the database.
+// c19CondSweep: every column of a populated table x every condition function and mutator x degenerate
+// arguments of the column's own type (empty set / map, one element, the value a row holds): well-typed
+// but unusual operations, each of which the database must answer.
+func c19CondSweep(r *Run) {
+	rounds := 2
+	if r.Tier == "thorough" {
+		rounds = 20
+	}
+	for h := 0; h < rounds; h++ {
+		ts := genTxnSchema(r.Rng, true)
+		im := newImplDB(ts)
+		sh := newShadow()
+		for k := 0; k < 4; k++ {
+			txn := genTxn(r.Rng, ts, sh, 4)
+			clampWaits(&txn)
+			im.transact(txn.Ops, nil)
+			sh.load(im.dump())
+		}
+		g := &txnGen{rng: r.Rng, ts: ts, sh: sh, named: map[string]string{}, inserted: map[string][]string{}}
+		for _, t := range ts.Spec.Tables {
+			for _, c := range t.Cols {
+				var args []*Value
+				args = append(args, zeroValue(c.Type), g.genColValue(c))
+				for _, u := range sh.uuids(t.Name) {
+					if v := sh.rows[t.Name][u][c.Name]; v != nil {
+						args = append(args, v)
+						break
+					}
+				}
+				for _, a := range args {
+					for _, fn := range condFns {
+						op := OperationJ{Op: []string{"select", "delete", "update"}[r.Rng.Intn(3)], Table: t.Name, Row: Row{},
+							Where: []WCondJ{{Col: c.Name, Fn: fn, Val: nativeToOvsValue(a)}}}
+						c19Answer(r, ts, im, []OperationJ{op}, "cond-sweep")
+					}
+					for _, mu := range []string{"+=", "-=", "*=", "/=", "%=", "insert", "delete"} {
+						op := OperationJ{Op: "mutate", Table: t.Name, Mutations: []MutationJ{{Col: c.Name, Mutator: mu, Val: nativeToOvsValue(a)}}}
+						c19Answer(r, ts, im, []OperationJ{op}, "cond-sweep")
+					}
+				}
+			}
+		}
+	}
+}
+
+// c19Answer: the database must answer the operations (results or error results, no panic)
+func c19Answer(r *Run, ts TxnSchema, im *ImplDB, ops []OperationJ, stream string) {
+	text, _ := json.Marshal(toOvsOps(ops))
+	r.Case(stream, string(text))
+	cs := map[string]interface{}{"model": ts.modelJSON(), "ops_json": string(text)}
+	func() {
+		defer func() {
+			if p := recover(); p != nil {
+				r.Violation(stream, cs, fmt.Sprintf("panic: %v", p), "results or error results", true, "the database panicked on a well-formed but degenerate operation", "")
+			}
+		}()
+		tx := im.d.NewTransaction("db")
+		res, _ := tx.Transact(toOvsOps(ops)...)
+		if len(res) == 0 {
+			r.Violation(stream, cs, "no results", "results or error results", true, "the database did not answer", "")
+		}
+	}()
+}
+
 func c19Transact(r *Run) {
 	c19Scripted(r)
+	c19CondSweep(r)
 	n := 300
 	if r.Tier == "thorough" {
 		n = 5000
